@@ -22,7 +22,7 @@ from .report import Verdict
 from .tlc import MachineryError, read_ndjson, run_tlc
 
 EXIT_KINDS = ["acm", "cm", "pusha", "pushs", "pushcm", "pusho", "pushp"]   # ... pushed callable object / partial(async def)
-CB_KINDS = ["cba", "cbs", "cbk", "cbp", "cbo"]   # async def / def / keyword-only def / partial(async def) / callable object
+CB_KINDS = ["cba", "cbs", "cbk", "cbp", "cbo", "cbw"]   # async def / def / keyword-only def / partial(async def) / callable object / def returning a non-coroutine awaitable
 
 
 class BlockError(Exception):
@@ -145,6 +145,16 @@ class World:
 
         pcb = functools.partial(acb3, None)
 
+        class Waitable:           # an awaitable that is no coroutine (like a future)
+            def __init__(self, coro):
+                self.coro = coro
+
+            def __await__(self):
+                return self.coro.__await__()
+
+        def wcb(a, kw=None):      # a plain function handing back such an awaitable: it has to be awaited all the same
+            return Waitable(acb(a, kw))
+
         def kcb(kw=None):        # registered with a keyword argument only
             if kw != 1:
                 w.args_ok = False
@@ -181,6 +191,8 @@ class World:
                 stack.callback(pcb, "arg", kw=1)
             elif ckind == "cbo":
                 stack.callback(ObjCb(), "arg", kw=1)
+            elif ckind == "cbw":
+                stack.callback(wcb, "arg", kw=1)
             else:
                 stack.callback(scb, "arg", kw=1)
 
@@ -207,6 +219,8 @@ class World:
                 stack.push_async_callback(pcb, "arg", kw=1)
             elif ckind == "cbo":
                 stack.push_async_callback(ObjCb(), "arg", kw=1)
+            elif ckind == "cbw":
+                stack.push_async_callback(wcb, "arg", kw=1)
             else:
                 stack.callback(scb, "arg", kw=1)
 
@@ -335,6 +349,9 @@ def _replay_path(args):
     w = World(salt)        # asyncstdlib.ExitStack
     w2 = World(salt)       # contextlib.AsyncExitStack
     wn = World(salt)       # nested with-statements (per unwind)
+    # another stack that merely exists alongside, with one callback of its own: nothing of this history is its business
+    bystander, by_log = L.ExitStack(), []
+    bystander.callback(lambda: by_log.append("ran"))
     stack = L.ExitStack()
     std = contextlib.AsyncExitStack()
     stacks = {"main": stack, "moved": None}
@@ -534,6 +551,13 @@ def _replay_path(args):
                 bad(f"outcome-{cur['res'][0]}-instead-of-{exp[0]}", j, {"expected": exp, "observed": cur["res"], "exit_log": cur["log"]})
                 break
             cur = None
+    if not out:
+        if by_log:
+            bad("exit-of-another-stack-ran", len(path), {"observed": by_log})
+        else:
+            run(bystander.aclose(), w.acct)
+            if by_log != ["ran"]:
+                bad("exit-of-another-stack-lost", len(path), {"observed": by_log})
     if not out and not w.args_ok:
         bad("callback-arguments-or-enter-value", len(path), {})
     if not out and not w.acct.ok():
